@@ -1430,8 +1430,12 @@ class Node:
             del self.connections[conn.ident]
         if conn.ident in self.peer_sockets:
             del self.peer_sockets[conn.ident]
+        if self.socket_peers.get(conn.socket_fileno) is conn:
+            del self.socket_peers[conn.socket_fileno]
+        if conn.ident in self._half_ready_connections:
+            del self._half_ready_connections[conn.ident]
         peer = self._find_connection_peer(conn)
-        if peer:
+        if peer and (peer.connection is None or peer.connection is conn):
             # unset so that a new connection may be made later
             peer.connection = None
             peer.last_disconnect = int(time.time())
